@@ -1,0 +1,48 @@
+// +build verif
+
+package sleep
+
+import (
+	"sync"
+
+	"github.com/brewlin/net-protocol/pkg/verifhook"
+)
+
+func verifYield(site string) { verifhook.Do(site) }
+
+// Under the verif tag a sleeper does not park through runtime.gopark (whose
+// linknamed signature is stale) but on a one-slot channel: the parked side
+// commits with commitSleep exactly as gopark's unlock function would, and a
+// waker that obtained the handle from waitingG sends on the channel. A wake-up
+// may precede the block, as with gopark/goready.
+var (
+	parkMu    sync.Mutex
+	parkChans = map[uintptr]chan struct{}{}
+	parkNext  = uintptr(16)
+)
+
+func verifPark(wg *uintptr) bool {
+	ch := make(chan struct{}, 1)
+	parkMu.Lock()
+	h := parkNext
+	parkNext += 2
+	parkChans[h] = ch
+	parkMu.Unlock()
+	verifYield("sleep.park.commit")
+	if commitSleep(h, wg) {
+		verifYield("sleep.park.block")
+		<-ch
+	}
+	parkMu.Lock()
+	delete(parkChans, h)
+	parkMu.Unlock()
+	return true
+}
+
+func verifReady(g uintptr) bool {
+	parkMu.Lock()
+	ch := parkChans[g]
+	parkMu.Unlock()
+	ch <- struct{}{}
+	return true
+}
